@@ -209,6 +209,21 @@ func TestTassaLowerDegree(t *testing.T) {
 	}
 }
 
+// TestKnownISNSoloHolder observes the catalogued finding on its minimal input: the gate tree
+// OR(2, AND(1,3)); holder 2 is qualified alone and ISN deals it nothing.
+func TestKnownISNSoloHolder(t *testing.T) {
+	and := &policy.Node{Leaf: -1, T: 2, Children: []*policy.Node{{Leaf: 0}, {Leaf: 2}}}
+	p := &policy.Policy{Family: policy.Gate, N: 3, Root: &policy.Node{Leaf: -1, T: 1, Children: []*policy.Node{{Leaf: 1}, and}}}
+	vlib.NoPanic(t, "isn solo holder", func() {
+		c := newCase(t, "KnownISNSoloHolder", p, []uint64{1, 2, 3}, policy.Ordinal, 1)
+		if !p.Qualified(0b010) || !c.ac.IsQualified(2) {
+			t.Fatalf("%v: holder 2 must be qualified alone", c)
+		}
+		present := envs["k256"].ISNSoloProbe(t, c, 1)
+		vlib.Known(knownISNSolo, present, "isn.NewFiniteScheme over boolexpr OR(2, AND(1,3)): shareholder 2 is qualified alone (IsQualified(2) = true) but is not among the scheme's Shareholders(), is dealt no share and CanReconstruct(2) = false, because cnf.ConvertToCNF takes the union of the maximal unqualified sets {1},{3} as the shareholder universe")
+	})
+}
+
 // ---- drawn policies --------------------------------------------------------------------------------------
 
 // drawCase draws policy, ID regime, IDs, field and subsets. Hierarchical policies whose IDs fall
